@@ -1020,7 +1020,7 @@ class Dilator:
                 self._eventual_queue,
                 self._cooperator,
                 self._acceptable_versions,
-                ping_interval or 30.0,
+                float(ping_interval or 30.0),  # (an int is as good as a float)
                 expected_subprotocols,
                 no_listen,
                 status_update,
